@@ -437,7 +437,7 @@ def run(ctx):
                 ctx.exec_case(dict(c, only_n=None, only_m=None), run_case)
             except Failure:
                 return
-    ctx.run_given(cases(), run_case, ctx.n(quick=4, thorough=70))
+    ctx.run_given(cases(), run_case, ctx.n(quick=2, thorough=60))
 
 
 def replay(case, ctx):
